@@ -132,18 +132,28 @@ class Spec(PropSpec):
         bs = case["cfg"].get("block_size") or 0
         dterm = term.replace("hrun_enc %d%%nat %d%%nat" % (n, bs), "hdrun_enc %d%%nat %d%%nat" % (n, bs), 1)
         cterm = term.replace("hrun_enc", "hdclasses_enc", 1)
-        return "(%s, %s, %s)" % (term, dterm, cterm), probes, problems
+        sterm = "dsafe_enc" + term.split("hrun_enc %d%%nat" % n, 1)[1]
+        return "(%s, %s, %s, %s)" % (term, dterm, cterm, sterm), probes, problems
 
     def compare(self, case, obs, model, probes):
         if isinstance(model, tuple) and model and model[0] == "error":
             return "model evaluation failed: %s" % str(model[1])[-400:]
-        impl_m, (dur_m, dur_flags), klasses = model
+        impl_m, (dur_m, dur_flags), klasses, coq_safe = model
         d = F.compare(case, obs, impl_m, probes)
         if d:
             return d
         py = sorted(KLASS_IDS[k] for k in F.history_features(case, obs) if k in KLASS_IDS)
         if not any(dur_flags) and py != sorted(set(klasses)):
             return "known-class predicates disagree: python %s, FsDurable.v %s" % (py, sorted(set(klasses)))
+        # the side condition of c07_crash_image (one host): alphabet, no known class, no KindSwap,
+        # no crash on a dangling durable subtree -- must be what the generators call "safe"
+        if case["cfg"].get("nhosts", 1) == 1:
+            feats = F.history_features(case, obs)
+            alphabet = not any(st[0].split("@")[0] in ("mkdir_all", "rmdir_all") for st in case["steps"])
+            py_safe = alphabet and not (feats & set(F.KNOWN_CLASSES)) and not any(dur_flags)
+            if py_safe != bool(coq_safe):
+                return "side condition of c07_crash_image: python says %s, dsafe (Coq) says %s (features %s)" % (
+                    py_safe, bool(coq_safe), sorted(feats))
         exp, flags = durable_expected(case, obs)
         for i, (a, fl) in enumerate(zip(exp, flags)):
             if bool(dur_flags[i]) != fl:
@@ -173,6 +183,10 @@ class Spec(PropSpec):
         h["crashes"] = h["ops"].get("crash", 0)
         h["with_coin"] = sum(1 for c in cases if c["cfg"].get("sync_prob"))
         h["with_block_size"] = sum(1 for c in cases if c["cfg"].get("block_size"))
+        h["in_proved_alphabet_and_class_free"] = sum(
+            1 for c in cases
+            if not any(st[0].split("@")[0] in ("mkdir_all", "rmdir_all") for st in c["steps"])
+            and not (F.history_features(c) & set(F.KNOWN_CLASSES)))
         return h
 
 
